@@ -34,8 +34,8 @@ REGISTRY = dict(
 ALPHABET = seeds.ALPHABET
 
 TIERS = {
-    "quick": dict(maxlen=2, places=seeds.PLACES, maxlen_deep=2, deep_places=[]),
-    "thorough": dict(maxlen=2, places=seeds.PLACES, maxlen_deep=3, deep_places=["const", "ann_field", "ann_type", "include", "default"]),
+    "quick": dict(maxlen=2, places=seeds.PLACES, maxlen_deep=2, deep_places=[], sq_places=["const", "ann_field"]),
+    "thorough": dict(maxlen=2, places=seeds.PLACES, maxlen_deep=3, deep_places=["const", "ann_field", "ann_type", "include", "default"], sq_places=seeds.PLACES),
 }
 
 GEN_CFG = """INIT Init
@@ -221,12 +221,15 @@ def run(ctx, args):
     k = 0
     for x in good:
         n = len(x["syms"])
+        symtxt = "|".join(ALPHABET[i - 1] for i in x["syms"])
         for place in T["places"] if n <= T["maxlen"] else T["deep_places"]:
-            k += 1
-            p = seeds.literal_program(place, x["atoms"], k)
-            symtxt = "|".join(ALPHABET[i - 1] for i in x["syms"])
-            progs.append((p, "literal place=%s syms=%s" % (place, symtxt),
-                          {"family": "literal", "place": place, "syms": symtxt}))
+            for q in ('"', "'"):
+                if q == "'" and (place in ("include", "cpp_include") or place not in T["sq_places"]):
+                    continue        # lib/idl.py writes include paths in double quotes
+                k += 1
+                p = seeds.literal_program(place, x["atoms"], k, q)
+                progs.append((p, "literal place=%s quote=%s syms=%s" % (place, q, symtxt),
+                              {"family": "literal", "place": place, "quote": q, "syms": symtxt}))
     for k, s in enumerate(shapes):
         p = seeds.service_program(s, k)
         progs.append((p, "function args=%d throws=%d oneway=%s ids=%s" % (s["na"], s["nt"], s["ow"], s["ids"]),
